@@ -111,6 +111,166 @@ fn dump(args: &[String]) -> i32 {
     0
 }
 
+// ------------------------------------------------------------------------------------------------
+// replay (real table)
+
+/// case: {k, id, eval: bool, unit: full unit name}
+/// out:  {k, res: null | {kind, exp, alias, unit}}  and for eval cases additionally
+///       conv:  evaluation of `<id> -> <id>` (unit factor list of the unsimplified value, its printed unit text),
+///       fac:   evaluation of `1 <id> -> <unit>` (the prefix factor as a number),
+///       rb:    read-back of the printed unit text: its resolution and the evaluation of `<text> -> <text>`
+fn replay_chunk(cases: &[J]) -> Vec<J> {
+    let mut ctx = prelude_context();
+    let mut out = vec![];
+    for c in cases {
+        let id = c["id"].as_str().unwrap();
+        let mut o = json!({"k": c["k"], "res": resolve(&ctx, id)});
+        if c["eval"].as_bool().unwrap_or(false) {
+            let conv = eval(&mut ctx, &format!("{id} -> {id}"));
+            let fac = eval(&mut ctx, &format!("1 {id} -> {}", c["unit"].as_str().unwrap()));
+            if let Some(text) = conv["unit_text"].as_str() {
+                let text = text.to_string();
+                o["rb"] = json!({"res": resolve(&ctx, &text), "conv": eval(&mut ctx, &format!("{text} -> {text}"))});
+            }
+            o["conv"] = conv;
+            o["fac"] = fac;
+        }
+        out.push(o);
+    }
+    out
+}
+
+fn replay(args: &[String]) -> i32 {
+    let cases = read_ndjson(arg(args, "--cases").expect("--cases"));
+    let threads = arg_u64(args, "--threads", 12) as usize;
+    let chunks: Vec<&[J]> = cases.chunks(cases.len().div_ceil(threads.max(1)).max(1)).collect();
+    let results: Vec<Vec<J>> = par_map(&chunks, threads, |c| replay_chunk(c));
+    let mut out = Out::new(arg(args, "--out"));
+    for r in results.iter().flatten() {
+        out.line(r);
+    }
+    out.flush();
+    0
+}
+
+// ------------------------------------------------------------------------------------------------
+// abs-replay (abstract machine): additions are numbat definitions on a fresh, prelude-free context
+//   unit   -> `@metric_prefixes @binary_prefixes @aliases(NAME: ap) unit NAME: Zq`   (one alias per unit)
+//   other  -> `let NAME = 3`
+//   shadow -> a parameter of a probe function `fn zqf(NAME, ...) = <identifier>` (shadowing exists only in a body)
+
+fn act_code(a: &J) -> String {
+    let name = a["name"].as_str().unwrap();
+    match a["op"].as_str().unwrap() {
+        "unit" => {
+            let kinds = a["kinds"].as_str().unwrap();
+            format!("{}{}@aliases({name}: {})\nunit {name}: Zq",
+                    if kinds == "metric" || kinds == "both" { "@metric_prefixes\n" } else { "" },
+                    if kinds == "binary" || kinds == "both" { "@binary_prefixes\n" } else { "" },
+                    a["ap"].as_str().unwrap())
+        }
+        "other" => format!("let {name} = 3"),
+        _ => unreachable!(),
+    }
+}
+
+fn outcome_of(ctx: &mut Context, code: &str) -> String {
+    let r = run_input(ctx, code);
+    if r.outcome == "ok" { "ok".into() } else { format!("{}:{}", r.outcome, r.kind) }
+}
+
+fn abs_case(meta: &J, case: &J) -> J {
+    let al = &meta[case["al"].as_str().unwrap()];
+    let acts = al["acts"].as_array().unwrap();
+    let probes: Vec<&str> = al["probes"].as_array().unwrap().iter().map(|p| p.as_str().unwrap()).collect();
+    let mut ctx = new_context(&[], false);
+    let r = run_input(&mut ctx, "dimension Zq");
+    assert!(r.outcome == "ok");
+    let mut add_outcomes = vec![];
+    let mut shadows: Vec<&str> = vec![];
+    for i in case["adds"].as_array().unwrap() {
+        let a = &acts[i.as_u64().unwrap() as usize - 1];
+        if a["op"] == "shadow" {
+            shadows.push(a["name"].as_str().unwrap());
+            add_outcomes.push(json!("-"));
+        } else {
+            if !shadows.is_empty() {
+                return json!({"k": case["k"], "error": "a global addition after a shadowing one cannot be replayed"});
+            }
+            add_outcomes.push(json!(outcome_of(&mut ctx, &act_code(a))));
+        }
+    }
+    let params = shadows.join(", ");
+    // every addition of the alphabet, tried on a copy
+    let mut tried = vec![];
+    for a in acts {
+        let name = a["name"].as_str().unwrap();
+        if a["op"] == "shadow" {
+            if shadows.contains(&name) {
+                tried.push(J::Null);
+            } else {
+                let ps = if params.is_empty() { name.to_string() } else { format!("{params}, {name}") };
+                tried.push(json!(outcome_of(&mut ctx.clone(), &format!("fn zqf({ps}) = 1"))));
+            }
+        } else if shadows.is_empty() {
+            tried.push(json!(outcome_of(&mut ctx.clone(), &act_code(a))));
+        } else {
+            tried.push(J::Null);
+        }
+    }
+    // the probes
+    let mut res = serde_json::Map::new();
+    if shadows.is_empty() {
+        for id in &probes {
+            let r = resolve(&ctx, id);
+            if !r.is_null() {
+                let mut c = ctx.clone();
+                let mut o = json!({"res": r});
+                o["conv"] = eval(&mut c, &format!("{id} -> {id}"));
+                o["fac"] = eval(&mut c, &format!("1 {id} -> {}", r["alias"].as_str().unwrap()));
+                res.insert(id.to_string(), o);
+            }
+        }
+    } else {
+        let args = shadows.iter().map(|_| "7").collect::<Vec<_>>().join(", ");
+        for id in &probes {
+            let mut c = ctx.clone();
+            let def = outcome_of(&mut c, &format!("fn zqf({params}) = {id}"));
+            let obs = if def != "ok" {
+                json!({"is": "none", "why": def})
+            } else {
+                let v = eval(&mut c, &format!("zqf({args})"));
+                let unit = v["unit"].as_array().cloned().unwrap_or_default();
+                if !v["ok"].as_bool().unwrap_or(false) || v.get("value").is_none() {
+                    json!({"is": "error", "v": v})
+                } else if unit.is_empty() {
+                    let x: f64 = v["value"].as_str().unwrap().parse().unwrap();
+                    json!({"is": if x == 7.0 { "param" } else if x == 3.0 { "var" } else { "error" }})
+                } else {
+                    json!({"is": "unit", "unit": unit, "value": v["value"]})
+                }
+            };
+            if obs["is"] != "none" {
+                res.insert(id.to_string(), obs);
+            }
+        }
+    }
+    json!({"k": case["k"], "adds": add_outcomes, "tried": tried, "res": res})
+}
+
+fn abs_replay(args: &[String]) -> i32 {
+    let meta: J = serde_json::from_str(&std::fs::read_to_string(arg(args, "--meta").expect("--meta")).unwrap()).unwrap();
+    let cases = read_ndjson(arg(args, "--cases").expect("--cases"));
+    let threads = arg_u64(args, "--threads", 12) as usize;
+    let results: Vec<J> = par_map(&cases, threads, |c| abs_case(&meta, c));
+    let mut out = Out::new(arg(args, "--out"));
+    for r in &results {
+        out.line(r);
+    }
+    out.flush();
+    0
+}
+
 fn main() {
-    nvh::main_dispatch(&[("dump", dump)]);
+    nvh::main_dispatch(&[("dump", dump), ("replay", replay), ("abs-replay", abs_replay)]);
 }
